@@ -87,6 +87,20 @@ def build(backend):
     add_tt("tree-type-vector-dict", f"ds.Select(lambda e: {{'n': {coll}.Count(), 'qs': {coll}.Select(lambda j: j.q())}})", ["n", "qs"], [{"int"}, {"std::vector<double>"}])
     add_tt("tree-type-vector-where", f"ds.Select(lambda e: {coll}.Where(lambda j: j.pt() > 0).Select(lambda j: j.q()))", None, [{"std::vector<double>"}])
     add_tt("tree-type-2d", f"ds.Select(lambda e: {coll}.Select(lambda j: j.parts().Select(lambda p: p.q())))", None, [{"std::vector<std::vector<double>>"}])
+    # columns typed by the BACKEND's own default method table (no declaration in the query), on a fresh executor and on an
+    # executor that has already translated / failed to translate another query
+    if backend != "atlas":
+        md0 = list(qgen.method_metadata(a))
+        priors = {"fresh": None, "after-ok": [(f"ds.Select(lambda e: {coll}.Count())", md0)], "after-failed": [(f"ds.Select(lambda e: {coll}.Select(lambda j: j.pt() // 2))", md0)],
+                  "after-two": [(f"ds.Select(lambda e: {coll}.Count())", md0), (per.format("j.isPFMuon()"), md0)]}
+        for pn, pr in priors.items():
+            for form, q, names, types in (
+                    ("default-typed-scalar", per.format("j.isPFMuon()"), None, [{"bool"}]),
+                    ("default-typed-vector", f"ds.Select(lambda e: {coll}.Select(lambda j: j.isPFMuon()))", None, [{"std::vector<bool>"}]),
+                    ("default-typed-dict", f"ds.Select(lambda e: {{'n': {coll}.Count(), 'pf': {coll}.Select(lambda j: j.isPFMuon())}})", ["n", "pf"], [{"int"}, {"std::vector<bool>"}])):
+                cases.append({"form": f"{form}:{pn}", "query": q, "names": names, "types": types, "raises": False})
+                if pr:
+                    cases[-1]["prior"] = pr
     add("selectmany-scalar", f"ds.SelectMany(lambda e: {coll}.Select(lambda j: j.q()))", None, [{"float"}])
     return cases
 
